@@ -1,8 +1,14 @@
-//! Mutable state threaded through a case (a package under test, etc.).
-pub struct State {}
+//! Mutable state threaded through a case: the package under test and its medium.
+use crate::medium::Medium;
+use msi::Package;
+
+pub struct State {
+    pub pkg: Option<Package<Medium>>,
+    pub medium: Option<Medium>,
+}
 
 impl State {
     pub fn new() -> State {
-        State {}
+        State { pkg: None, medium: None }
     }
 }
